@@ -854,10 +854,107 @@ func extractC04Submission(c *Ctx) error {
 	if older != "bh-val.GetAddedAtBlockHeight() > blockAge" {
 		return fmt.Errorf("getMessagesOlderThan: age test %q not understood", older)
 	}
+	if err := extractC04Flush(c); err != nil {
+		return err
+	}
 	c.P("(* x/consensus/module.go EndBlock *)")
 	c.P("Definition endblock_calls : list string := %s.", CoqStrList(calls))
 	c.P("Definition prune_every : Z := %d.", every)
 	c.P("Definition prune_age : Z := %s.", pruneAge)
 	c.Info("endblock_calls", calls)
+	return nil
+}
+
+// ---- when does an attested message leave the queue: the flush condition of attestMessageWrapper, and that the
+// sentinels it tests survive every error constructed on the attest paths of x/evm/keeper ----
+func extractC04Flush(c *Ctx) error {
+	files, err := c.ParseDir("x/evm/keeper")
+	if err != nil {
+		return err
+	}
+	wd := FindFuncIn(files, "Keeper", "attestMessageWrapper")
+	if wd == nil {
+		return fmt.Errorf("attestMessageWrapper not found")
+	}
+	flush := ""
+	ast.Inspect(wd.Body, func(n ast.Node) bool {
+		is, ok := n.(*ast.IfStmt)
+		if ok && len(is.Body.List) == 1 && c.Src(is.Body.List[0]) == "writeCache()" && is.Else == nil {
+			if flush != "" {
+				flush = "?"
+			} else {
+				flush = c.Src(is.Cond)
+			}
+		}
+		return true
+	})
+	flush = strings.Join(strings.Fields(flush), " ")
+	if flush == "" || flush == "?" || len(Calls(wd.Body, "writeCache")) != 1 {
+		return fmt.Errorf("attestMessageWrapper: exactly one `if <cond> { writeCache() }` expected (unknown shape)")
+	}
+	c.P("(* x/evm/keeper/attest.go attestMessageWrapper: the cache (removal of the message, effects) is written iff *)")
+	c.P("Definition attest_flush_condition : string := %s.", CoqStr(flush))
+	c.Info("attest_flush_condition", flush)
+	// errors built on the attest paths: a wrapped error must stay reachable for errors.Is
+	ents, err := os.ReadDir(filepath.Join(c.Repo, "x/evm/keeper"))
+	if err != nil {
+		return err
+	}
+	var wraps []string
+	for _, e := range ents {
+		n := e.Name()
+		if !strings.HasPrefix(n, "attest") || !strings.HasSuffix(n, ".go") || strings.HasSuffix(n, "_test.go") {
+			continue
+		}
+		f, err := c.Parse(filepath.Join("x/evm/keeper", n))
+		if err != nil {
+			return err
+		}
+		var bad error
+		ast.Inspect(f, func(x ast.Node) bool {
+			ce, ok := x.(*ast.CallExpr)
+			if !ok || bad != nil {
+				return bad == nil
+			}
+			se, ok := ce.Fun.(*ast.SelectorExpr)
+			if !ok {
+				return true
+			}
+			carriesErr := false
+			for _, a := range ce.Args {
+				if id, ok := a.(*ast.Ident); ok && (id.Name == "err" || id.Name == "retErr") {
+					carriesErr = true
+				}
+			}
+			format := ""
+			if len(ce.Args) > 0 {
+				if b, ok := c04Lit(ce.Args[0]); ok {
+					format = string(b)
+				}
+			}
+			switch {
+			case se.Sel.Name == "JoinErrorf" || se.Sel.Name == "Join":
+				// liberr.Error.Join / JoinErrorf flatten to a string: nothing wrapped inside is reachable for errors.Is
+				if carriesErr || strings.Contains(format, "%w") {
+					bad = fmt.Errorf("%s: %s wraps an error with liberr %s, which flattens it to a string (a sentinel like ErrEthTxNotVerified is lost for the flush condition): unknown shape", n, c.Src(ce), se.Sel.Name)
+				}
+			case c.Src(ce.Fun) == "fmt.Errorf" && carriesErr:
+				if !strings.Contains(format, "%w") {
+					bad = fmt.Errorf("%s: %s formats an error without %%w (a sentinel is lost for the flush condition): unknown shape", n, c.Src(ce))
+				} else {
+					wraps = append(wraps, n+": "+format)
+				}
+			case (se.Sel.Name == "New" || se.Sel.Name == "Wrap" || se.Sel.Name == "Wrapf") && carriesErr:
+				bad = fmt.Errorf("%s: %s re-packs an error in a way the translator does not know: unknown shape", n, c.Src(ce))
+			}
+			return true
+		})
+		if bad != nil {
+			return bad
+		}
+	}
+	sort.Strings(wraps)
+	c.P("Definition attest_error_wraps : list string := %s.", CoqStrList(wraps))
+	c.Info("attest_error_wraps", wraps)
 	return nil
 }
